@@ -15,6 +15,31 @@ VIEW_METHODS = {"reshape", "view", "ravel", "transpose", "squeeze", "swapaxes", 
 FRESH_METHODS = {"copy", "astype", "flatten", "tolist", "sum", "mean", "max", "min", "toarray", "todense", "dot", "conj", "round", "clip", "cumsum", "tocsr", "tocsc", "tolil", "integrate"}
 
 
+def resolve_accessor_call(repo, f, call):
+    """`Base.prop.fset(self, v)` / `Base.prop.fget(self)` / `super(C, C).prop.__set__(self, v)`: the explicit call of a
+    property accessor of a (base) class -- the way an overriding setter reaches the one it overrides"""
+    fn = call.func
+    if not (isinstance(fn, ast.Attribute) and fn.attr in ("fset", "fget", "__set__", "__get__") and isinstance(fn.value, ast.Attribute)):
+        return None
+    prop = fn.value.attr
+    owner = fn.value.value
+    want_setter = fn.attr in ("fset", "__set__")
+    ci = None
+    if isinstance(owner, ast.Call) and dotted(owner.func) == "super" and f.cls is not None and len(f.cls.mro) > 1:
+        ci = f.cls.mro[1]
+    else:
+        d = dotted(owner)
+        r = repo.resolve_name(f.module, d) if d else None
+        if isinstance(r, ClassInfo):
+            ci = r
+    if ci is None:
+        return None
+    if want_setter:
+        return repo.lookup_setter(ci, prop)
+    g = repo.lookup_method(ci, prop)
+    return g if g is not None and g.is_property() else None
+
+
 class CallGraph:
     def __init__(self, repo: Repo):
         self.repo = repo
@@ -54,6 +79,9 @@ class CallGraph:
                 return [init] if init is not None else []
             return []
         if isinstance(fn, ast.Attribute):
+            acc = resolve_accessor_call(repo, f, call)
+            if acc is not None:
+                return [acc]
             base = fn.value
             if isinstance(base, ast.Name) and base.id in ("self", "cls") and f.cls is not None:
                 return self.resolve_self_attr(f.cls, fn.attr)
